@@ -22,7 +22,10 @@ REST_SIG = list("();X'{}")
 SIG_EXT = ['&(', '&&(', '&)', '&&)', 'Ww',
            # further units of the grammar that are outside the canonicity claim: editorial marks, footnotes, staff changes
            # attached to a slur / beam, hidden tie
-           'xx', 'yy', '??', '[y', '(<', 'L>']
+           'xx', 'yy', '??', '[y', '(<', 'L>',
+           # grace / appoggiatura marks written as a signifier after the pitch (inside the duration they are duration marks)
+           'q', 'p', 'P']
+_POST_ONLY = {'q', 'p', 'P'}
 _DISPLAY_CHARS = set('xXiIjZyY')
 DISPLAY = ['x', 'X', 'i', 'I', 'j', 'Z', 'y', 'yy', 'Y', 'YY']
 NUMS = ['1', '2', '4', '8', '16', '32', '64', '0', '00', '3', '6', '12', '24', '4%3', '3%2', '16%5']
@@ -93,11 +96,13 @@ def constrain_cell(ns, rule_iv=True):
             if m == 'yy':
                 banned.add('[')  # '[' directly followed by 'yy' reads as the hidden tie '[y' + 'y'
     for n in ns:
+        if set(n['dur']) & {'q', 'qq', 'p', 'P'} or n['p'] == 'r':
+            n['sigs'] = [s for s in n['sigs'] if s not in _POST_ONLY]
         n['sigs'] = [s for s in n['sigs'] if (len(s) > 1 and s in keep_multi) or (len(s) == 1 and s not in banned)]
         seen = set()
         dedup = []
         for s_ in n['sigs']:  # a multi-character unit at most once per note: 'yy' written twice in a row is 'yyyy'
-            if len(s_) > 1 and s_ in seen:
+            if (len(s_) > 1 or s_ not in _SIG_SET) and s_ in seen:
                 continue
             seen.add(s_)
             dedup.append(s_)
@@ -141,6 +146,9 @@ def layouts(draw, n):
         sigs = draw(st.permutations(sigs))
     out = []
     for s in sigs:
+        if s in _POST_ONLY:
+            out.append([s, 'post'])
+            continue
         out.append([s, draw(st.sampled_from(slots))])
         if draw(st.integers(0, 6)) == 0 and s in _SIG_SET:
             out.append([s, draw(st.sampled_from(slots))])  # repetition (canonical alphabet only: 'yy' twice is 'yyyy')
